@@ -228,7 +228,9 @@ fn check(mode: &str, text: &str, width: usize) -> Result<(u32, bool), (String, S
         (format!("{}: {}", mode, c), format!("{} — output {:?}", d, inner))
     })?;
     let mut had_wide_single = false;
-    if !styled && width > 0 {
+    // without the `wrap_help` feature clap does not wrap at all: the width bound is then not
+    // clap's to keep (content preservation still is)
+    if !styled && width > 0 && cfg!(feature = "full") {
         for line in inner.split('\n') {
             let t = line.trim_end_matches(' ');
             if width_of(t) > width {
@@ -273,14 +275,15 @@ fn main() {
     let widths: Vec<usize> = (0..=8).collect();
     rep.rule("every string of <= K atoms over {a, bb, space, newline, 日(width 2), e+U+0301(zero-width mark), ESC[1m, ESC[0m} x width in {0=unlimited,1..8} x {plain via {author}, styled via {about}}; rendered through Command::render_help with sentinel template and compared with the alignment relation (only whole runs of spaces become a break + the line's indent) and, for plain text, the width bound; non-trivial = cases in which at least one line break was inserted");
     rep.set("bounds", json!({"atoms": ATOMS.len(), "max_atoms": k, "widths": widths}));
-    rep.assume("clap features wrap_help + unicode + color compiled in; characters outside the 8-atom alphabet, longer strings and widths > 8 are not explored");
+    rep.assume(if cfg!(feature = "full") { "this pass: clap built with wrap_help + unicode + color; characters outside the 8-atom alphabet, longer strings and widths > 8 are not explored" } else { "this pass: clap built with its DEFAULT features (no wrap_help, no unicode): text must come through unchanged; the width bound does not apply" });
     rep.assume("styled text: the indent re-emitted after a break is the current line's leading run of spaces, either up to the first escape sequence (what the chunk-wise wrapper does) or across escape sequences (equally valid); trailing whitespace of the whole text is not content (documented trim_end)");
 
     // self-test: sentinel access works and is deterministic
     {
         let a = render("plain", "a a a", 3);
         let b = render("plain", "a a a", 3);
-        if a != b || a != "<a a\na>\n" {
+        let want = if cfg!(feature = "full") { "<a a\na>\n" } else { "<a a a>\n" };
+        if a != b || a != want {
             rep.machinery(&format!("self-test: sentinel render gave {:?} / {:?}", a, b));
         }
         let s = render("styled", "a \x1b[1ma\x1b[0m a", 3);
